@@ -25,8 +25,10 @@ FORMATS = ("class", "pydantic", "function", "argparse", "docstring", "json_schem
 
 
 def emit(ir, fmt, **kw):
-    """-> (node_or_obj, source_text). Always works on a deepcopy (several emitters mutate)."""
-    ir = deepcopy(ir)
+    """-> (node_or_obj, source_text). Works on a deepcopy (several emitters mutate) unless `_share=True` is passed: then
+    the caller's object goes to the emitter as it is, as in code that emits several targets from one description."""
+    if not kw.pop("_share", False):
+        ir = deepcopy(ir)
     # NB: module attributes are looked up at call time so that installed contracts are hit
     if fmt == "class":
         node = cdd.class_.emit.class_(ir, class_name=ir["name"], **kw)
